@@ -2,3 +2,9 @@ import LC.Props.C14
 #print axioms LC.Conc.skeleton_current
 #print axioms LC.Conc.prefix_skeleton_rejected
 #print axioms LC.Conc.two_thread_instance
+#print axioms LC.RW.values_skeletons_accepted
+#print axioms LC.RW.values_skeletons_present
+#print axioms LC.RW.accepted_calls_ok
+#print axioms LC.RW.threadOK_append
+#print axioms LC.RW.prefixOK_of_threadOK
+#print axioms LC.RW.rw_no_race
